@@ -4,11 +4,13 @@ package basichost
 
 // C07: stream protocol negotiation - both ends agree and the right handler runs.
 //
-// Engine E1 (seqmc): breadth-first search over histories of handler / knowledge operations applied to REAL
-// hosts (fresh listener + two dialers per execution, inside a synctest bubble). Every distinct reachable
-// (listener mux, dialer knowledge) state is then probed: every ordered request list over the protocol universe
-// is opened with BasicHost.NewStream on the direct and on the limited connection, plus pairs of concurrent
-// opens, and each open is checked against the statement (see oracle()).
+// Engine E1 (package seqmcp = seqmc distributed over the worker processes check.py starts): breadth-first
+// search over histories of handler / knowledge operations applied to REAL hosts (fresh listener + two dialers
+// per execution, inside a synctest bubble). Every distinct reachable (listener mux, dialer knowledge) class of
+// states is then probed: every ordered request list over the protocol universe is opened with Host.NewStream
+// on the direct and on the limited connection, plus pairs of concurrent opens, and each open is checked
+// against the statement (see oracle()). Two searches: BasicHosts (part "negotiation") and BlankHosts (part
+// "blankhost").
 
 import (
 	"bytes"
@@ -559,7 +561,7 @@ func TestVerifC07(t *testing.T) {
 		return
 	}
 	defer debug.SetGCPercent(debug.SetGCPercent(400)) // thousands of short-lived host triples: trade memory for GC work
-	depth := 3
+	depth := 4
 	if vrep.Thorough() {
 		depth = 1 << 20 // the state space is finite (46 mux configurations x 8 snapshots x 8 knowledge sets): closure
 	}
@@ -576,6 +578,9 @@ func TestVerifC07(t *testing.T) {
 // c07Replay re-executes one recorded history (check.py --replay): the operations are applied to fresh hosts
 // and the final state's opens are enumerated again.
 func c07Replay(t *testing.T, path string) {
+	if i, _ := vrep.Shard(); i != 0 {
+		return // one process is enough
+	}
 	b, err := os.ReadFile(path)
 	if err != nil {
 		t.Logf("replay: %v", err)
